@@ -7,4 +7,8 @@ if ! cargo build --release -q 2>/verif/harness/target/build-$ID.log; then
   echo "BUILD-FAILED (see /verif/harness/target/build-$ID.log)"; tail -n 30 /verif/harness/target/build-$ID.log
   exit 2
 fi
+if [ "$ID" = "C16" ]; then
+  # C16 also runs its deep shapes in an unoptimised build of the worker
+  cargo build -q 2>>/verif/harness/target/build-$ID.log || echo "note: debug worker build failed (C16 runs without its debug-build section)"
+fi
 exec ./target/release/check "$ID" --tier "$TIER"
